@@ -191,6 +191,9 @@ pub fn generate_c11(thorough: bool, seed: u64, part: (usize, usize), em: &mut Em
         { let mut g = Gen { r: &mut r, share: 0x000103ea }; activate(&mut g, &mut ops, &mut hist); }
         for btn in 0..4 { for down in 0..2 { for &x in &b { for &y in &b { ops.push(format!("P{}:{}:{}:{}", x, y, btn, down)); hist.push("I".into()); } } } }
         for down in 0..2 { for &c in &b { ops.push(format!("K{}:{}", c, down)); hist.push("I".into()); } }
+        for _ in 0..3 { ops.push("P10:20:0:0".into()); hist.push("I".into()); }
+        ops.push("P10:20:1:1".into()); hist.push("I".into()); ops.push("P10:20:1:0".into()); hist.push("I".into()); ops.push("P10:20:0:0".into()); hist.push("I".into());
+        for _ in 0..2 { ops.push("K30:1".into()); hist.push("I".into()); }
         ops.push("B".into()); hist.push("X".into()); ops.push("TB".into()); hist.push("X".into());
         emit(em, 1004, 800, 600, 0x409, "rdp-rs", &ops, Some(&hist));
     }
@@ -209,6 +212,8 @@ pub fn generate_c11(thorough: bool, seed: u64, part: (usize, usize), em: &mut Em
                 3 => { let i = g.input(); ops.push(format!("T{}", i)); hist.push("J".into()); }
                 4 => { if g.r.chance(1, 4) { // a re-activation with a new share id in the middle
                          for l in &[8u64, 0, 1, 2, 3, 5] { let (o, h) = g.letter(*l); ops.push(o); hist.push(h); } } else { let i = g.input(); ops.push(i); hist.push("I".into()); } }
+                5 => { // the same event submitted several times in a row: each submission is one PDU
+                       let i = g.input(); let k = g.r.range(2, 4); for _ in 0..k { ops.push(i.clone()); hist.push("I".into()); } }
                 _ => { let i = g.input(); ops.push(i); hist.push("I".into()); }
             }
         }
@@ -345,6 +350,16 @@ pub fn generate_c06(thorough: bool, seed: u64, part: (usize, usize), em: &mut Em
                 format!("R{}", hex(&m)) }
         };
         run(em, &mut r, pre, vec![op]);
+    }
+    // c2. send-data-indication whose announced length is larger / smaller than what follows
+    for &(announced, actual) in &[(0x100usize, 4usize), (0x7fff, 0), (5, 4), (4, 5), (1, 0), (0, 7), (0x80, 0x7f), (0x81, 0x80), (300, 299), (16384, 20)] {
+        for pre in prefixes.iter() {
+            idx += 1; if idx % part.1 != part.0 { continue; }
+            let body = refsrv::synchronize(0x103ea, 1002);
+            let mut m = vec![0x68]; m.extend(refsrv::be16(1)); m.extend(refsrv::be16(1003)); m.push(0x70); m.extend(refsrv::perlen(announced));
+            m.extend(body.iter().cycle().take(actual));
+            run(em, &mut r, pre, vec![format!("M{}", hex(&m))]);
+        }
     }
     // d. every share-control PDU type, with the bodies of the well-formed PDUs (a reflected
     //    confirm-active, a demand-active under another type, ...), in every state
